@@ -370,18 +370,20 @@ Eval(dyn, ud, F, q2, u2, tasks, cons, felems, felems2) ==
       \* ---- force elements
       IV3(v) == VI(v[1], v[2], v[3])
       \* (su: the speeds at which the velocity-dependent laws, the power and dPE/dt are evaluated)
-      ForceEval(FL, su) ==
+      ForceEval(FL, su, XX, qq) ==
         LET NF == Len(FL)
-            Vs == TLCEval(Vels(X, su, ZeroU))
-            Bs == BodyV(X, Vs)
+            Vs == TLCEval(VelsQ(XX, qq, su, ZeroU))
+            Bs == BodyV(XX, Vs)
+            BR(b) == IF b = 0 THEN Ident ELSE XX[b].R
+            BP(b) == IF b = 0 THEN VZero ELSE XX[b].p
             sf == TLCEval([j \in 1..ND |-> R(su[Dofs[j][1]][Dofs[j][2]])])
             On(e) == e.on = 1
             Grav(e, b) == (e.type = "ugravity") \/ (e.type = "gravity" /\ e.ex[b] = 0)
             BodyW(e, b) ==       \* the element's spatial force on body b at the body origin
               IF ~On(e) THEN WZero
               ELSE IF e.type \in {"gravity", "ugravity"} THEN
-                     (IF Grav(e, b) THEN LET f == VScale(Mass(b), IV3(e.g)) IN [t |-> Cross(ComOff(b, X), f), f |-> f] ELSE WZero)
-              ELSE IF e.type = "cforce" /\ e.b = b THEN [t |-> Cross(MV(X[b].R, IV3(e.st)), IV3(e.f)), f |-> IV3(e.f)]
+                     (IF Grav(e, b) THEN LET f == VScale(Mass(b), IV3(e.g)) IN [t |-> Cross(ComOff(b, XX), f), f |-> f] ELSE WZero)
+              ELSE IF e.type = "cforce" /\ e.b = b THEN [t |-> Cross(MV(XX[b].R, IV3(e.st)), IV3(e.f)), f |-> IV3(e.f)]
               ELSE IF e.type = "ctorque" /\ e.b = b THEN [t |-> IV3(e.f), f |-> VZero]
               ELSE WZero
             MobF(e, j) ==        \* the element's generalized force on the flattened mobility j
@@ -390,19 +392,19 @@ Eval(dyn, ud, F, q2, u2, tasks, cons, felems, felems2) ==
               ELSE IF e.type = "gdamper" THEN R(-(e.c * su[d[1]][d[2]]))
               ELSE IF e.type = "lbush" THEN Zero           \* (its angles are irrational: finished by the checker from the lattice coordinates)
               ELSE IF e.type \in {"mcf", "mls", "mld"} /\ e.b = d[1] /\ e.k = d[2] THEN
-                     (IF e.type = "mcf" THEN R(e.c) ELSE IF e.type = "mld" THEN R(-(e.c * su[d[1]][d[2]])) ELSE R(-(e.c * (q[d[1]][e.k].k - e.q0))))
+                     (IF e.type = "mcf" THEN R(e.c) ELSE IF e.type = "mld" THEN R(-(e.c * su[d[1]][d[2]])) ELSE R(-(e.c * (qq[d[1]][e.k].k - e.q0))))
               ELSE Zero
             PE2(e) ==            \* twice the potential energy
               IF ~On(e) THEN Zero
               ELSE IF e.type \in {"gravity", "ugravity"} THEN
-                     SumRS(TLCEval([b \in 1..N |-> IF Grav(e, b) THEN RMul(R(-2), RMul(Mass(b), Dot(IV3(e.g), ComG(b, X)))) ELSE Zero]), N)
-              ELSE IF e.type = "mls" THEN LET dq == q[e.b][e.k].k - e.q0 IN R(e.c * dq * dq)
+                     SumRS(TLCEval([b \in 1..N |-> IF Grav(e, b) THEN RMul(R(-2), RMul(Mass(b), Dot(IV3(e.g), ComG(b, XX)))) ELSE Zero]), N)
+              ELSE IF e.type = "mls" THEN LET dq == qq[e.b][e.k].k - e.q0 IN R(e.c * dq * dq)
               ELSE Zero
             DPE(e) ==            \* d/dt of the potential energy
               IF ~On(e) THEN Zero
               ELSE IF e.type \in {"gravity", "ugravity"} THEN
                      SumRS(TLCEval([b \in 1..N |-> IF Grav(e, b) THEN RNeg(RMul(Mass(b), Dot(IV3(e.g), Bs[b].vc))) ELSE Zero]), N)
-              ELSE IF e.type = "mls" THEN R(e.c * (q[e.b][e.k].k - e.q0) * su[e.b][e.k])
+              ELSE IF e.type = "mls" THEN R(e.c * (qq[e.b][e.k].k - e.q0) * su[e.b][e.k])
               ELSE Zero
             Power(e) == RAdd(SumRS(TLCEval([b \in 1..N |-> LET W == BodyW(e, b) IN RAdd(Dot(W.t, Vs[b].w), Dot(W.f, Vs[b].v))]), N),
                              SumRS(TLCEval([j \in 1..ND |-> RMul(MobF(e, j), sf[j])]), ND))
@@ -411,16 +413,16 @@ Eval(dyn, ud, F, q2, u2, tasks, cons, felems, felems2) ==
             TwoPt(e) ==
               IF e.type \in {"tpls", "tpld", "tpcf"} THEN
                 LET B1 == BodyK(Vs, e.b)  B2 == BodyK(Vs, e.b2)
-                    r1 == MV(BodyR(e.b), IV3(e.st))  r2 == MV(BodyR(e.b2), IV3(e.st2))
-                    pp == VSub(VAdd(BodyP(e.b2), r2), VAdd(BodyP(e.b), r1))
+                    r1 == MV(BR(e.b), IV3(e.st))  r2 == MV(BR(e.b2), IV3(e.st2))
+                    pp == VSub(VAdd(BP(e.b2), r2), VAdd(BP(e.b), r1))
                     pd == VSub(VAdd(B2.v, Cross(B2.w, r2)), VAdd(B1.v, Cross(B1.w, r1)))
-                IN [p |-> pp, pv |-> Dot(pp, pd), r1 |-> r1, r2 |-> r2, o1 |-> BodyP(e.b), o2 |-> BodyP(e.b2),
+                IN [p |-> pp, pv |-> Dot(pp, pd), r1 |-> r1, r2 |-> r2, o1 |-> BP(e.b), o2 |-> BP(e.b2),
                     v1 |-> VAdd(B1.v, Cross(B1.w, r1)), v2 |-> VAdd(B2.v, Cross(B2.w, r2))]
               ELSE [p |-> VZero, pv |-> Zero, r1 |-> VZero, r2 |-> VZero, o1 |-> VZero, o2 |-> VZero, v1 |-> VZero, v2 |-> VZero]
             CablePts(e) ==
               IF e.type = "cable" THEN
-                [i \in 1..Len(e.pts) |-> LET pt == e.pts[i]  B == BodyK(Vs, pt.b)  r == MV(BodyR(pt.b), IV3(pt.st)) IN
-                                          [p |-> VAdd(BodyP(pt.b), r), v |-> VAdd(B.v, Cross(B.w, r)), r |-> r]]
+                [i \in 1..Len(e.pts) |-> LET pt == e.pts[i]  B == BodyK(Vs, pt.b)  r == MV(BR(pt.b), IV3(pt.st)) IN
+                                          [p |-> VAdd(BP(pt.b), r), v |-> VAdd(B.v, Cross(B.w, r)), r |-> r]]
               ELSE <<>>
         IN [twopt |-> [k \in 1..NF |-> TwoPt(FL[k])],
             cable |-> [k \in 1..NF |-> CablePts(FL[k])],
@@ -432,9 +434,11 @@ Eval(dyn, ud, F, q2, u2, tasks, cons, felems, felems2) ==
             \* C12 on the spec itself: an element with a potential delivers power -dPE/dt; a damper never delivers positive power
             powerIsMinusDPE |-> \A k \in 1..NF : Cons(FL[k]) => Power(FL[k]) = RNeg(DPE(FL[k])),
             dampersDissipate |-> \A k \in 1..NF : Diss(FL[k]) => Power(FL[k]).n <= 0]
-      FZ1 == ForceEval(felems, u)
-      FZ2 == ForceEval(felems2, u)
-      FZ3 == ForceEval(felems2, u2)      \* the same State after a u-only change (second parameter set still in force)
+      XQ2 == TLCEval(PosesQ(q2))
+      FZ1 == ForceEval(felems, u, X, q)
+      FZ2 == ForceEval(felems2, u, X, q)
+      FZ3 == ForceEval(felems2, u2, X, q)      \* the same State after a u-only change (second parameter set still in force)
+      FZ4 == ForceEval(felems2, u2, XQ2, q2)   \* ... and then after a q-only change (time and parameters untouched)
       \* ---- constraints
       NC == Len(cons)
       AxisV(a) == << Red(a.n[1], a.e), Red(a.n[2], a.e), Red(a.n[3], a.e) >>
@@ -548,7 +552,9 @@ Eval(dyn, ud, F, q2, u2, tasks, cons, felems, felems2) ==
       forces |-> [body |-> FZ1.body, mob |-> FZ1.mob, pe2 |-> FZ1.pe2, power |-> FZ1.power, twopt |-> FZ1.twopt, cable |-> FZ1.cable],
       forces2 |-> [body |-> FZ2.body, mob |-> FZ2.mob, pe2 |-> FZ2.pe2, power |-> FZ2.power, twopt |-> FZ2.twopt, cable |-> FZ2.cable],
       forces3 |-> [body |-> FZ3.body, mob |-> FZ3.mob, pe2 |-> FZ3.pe2, power |-> FZ3.power, twopt |-> FZ3.twopt, cable |-> FZ3.cable],
-      forceLaws |-> FZ1.powerIsMinusDPE /\ FZ1.dampersDissipate /\ FZ2.powerIsMinusDPE /\ FZ2.dampersDissipate /\ FZ3.powerIsMinusDPE /\ FZ3.dampersDissipate,
+      forces4 |-> [body |-> FZ4.body, mob |-> FZ4.mob, pe2 |-> FZ4.pe2, power |-> FZ4.power, twopt |-> FZ4.twopt, cable |-> FZ4.cable],
+      forceLaws |-> FZ1.powerIsMinusDPE /\ FZ1.dampersDissipate /\ FZ2.powerIsMinusDPE /\ FZ2.dampersDissipate /\ FZ3.powerIsMinusDPE /\ FZ3.dampersDissipate
+                    /\ FZ4.powerIsMinusDPE /\ FZ4.dampersDissipate,
       cons |-> [k \in 1..NC |-> [perr |-> ConsAt0[k].perr, verr |-> ConsAt0[k].verr, aerr0 |-> ConsAt0[k].aerr, aerr |-> ConsAtUd[k].aerr,
                                   verrU2 |-> ConsAtU2[k].verr, aerr0U2 |-> ConsAtU2[k].aerr]],
       G |-> G,
